@@ -28,6 +28,10 @@ pub(super) fn run_write(invocation: ToolInvocation, config: &BuiltinToolConfig) 
         Err(err) => return ToolOutput::failure(vec![err]),
     };
 
+    if path.is_dir() {
+        return ToolOutput::failure(vec!["write failed: target is a directory".to_string()]);
+    }
+
     let create = args.create.unwrap_or(true);
     let append = args.append.unwrap_or(false);
     let atomic = args.atomic.unwrap_or(true);
